@@ -146,7 +146,7 @@ def molecules(ctx):
     rng = ctx.rng
     out = list(molgen.handmade())
     out += [(t, molgen.parse(t)) for t in SYMMETRIC + STEREO_PAIRS + ISOTOPES + EXPLICIT_H_STEREO + ez_catalogue() + OLIGOMERS
-            + RADICALS + COORDINATED + ALLENES + PI_STEREO + RING_EZ + ODD_GROUPS + oligomers(rng, 30 if ctx.quick else 200) if molgen.parse(t) is not None]
+            + RADICALS + COORDINATED + ALLENES + PI_STEREO + RING_EZ + ODD_GROUPS + HYPERVALENT_PI + oligomers(rng, 30 if ctx.quick else 200) if molgen.parse(t) is not None]
     out += molgen.corpus(rng, 300 if ctx.quick else 1500)
     n_small = 5 if ctx.quick else 6
     graphs = [g for k in range(2, n_small + 1) for g in molgen.unlabeled_small_graphs(k)]
@@ -212,6 +212,17 @@ PI_STEREO = [
 ]
 
 
+# double-bond chains through atoms with more than two bonds (the `break` branch of `cumulenes`), three double bonds on one
+# atom, and coordinate (order 8) bonds on the ends of labelled double bonds (skipped by `stereogenic_cumulenes`)
+HYPERVALENT_PI = [
+    'CN(=O)=O', 'C[SH](=O)=O', 'CP(=O)=O', 'O=S(=O)=O', 'OS(=O)(=O)O', 'CS(C)(=O)=O', 'C=S(C)=O', 'CC=S(C)=C',
+    'O=N(=O)c1ccccc1', 'C/C=C/N(=O)=O', 'C=C=S(C)=O', 'O=P(=O)O', 'C[As](=O)=O', 'CC(C)=S(=O)=O', 'C=S(=O)=O', 'O=S(C)(=C)C',
+    'C/C=N(/C)~[Cu]', 'C/C=N(\\C)~[Cu]', 'C/C=N(/O)~[Pd]', 'C/C=C(/C)~[Cu]', 'C/C=C(\\C)~[Cu]', 'C/C=C/N(C)~[Cu]',
+    'C/C=N/C.C/C=N(/C)~[Cu]', 'CC=[C@]=C(C)~[Pd]', 'C/C(~[Cu])=C(/C)~[Cu]', 'C/C=C/C=N(/C)~[Ni]', 'O=C=C=C=O', 'C=C=C=C=C',
+    'CC=S(C)#N', 'C/C=S(/C)#N', 'CC=P(C)#N', 'CC=S(CC)#N.O', 'N=C=N', 'CN=C=NC', 'C/C=C=C=C=C=C/C', 'O=C=C(C)C', 'S=C=S', 'C=C=N', '[N-]=[N+]=N', 'C=[N+]=[N-]', 'C/C=C/[N+](C)=C',
+]
+
+
 def forced_pi_labels(rng, mol):
     """labels written directly into `_stereo` of double bonds and of sp-carbon atoms: several stereogenic double bonds /
     allene centres at once with random signs (equivalent ones get like and unlike pairs the parser rarely produces),
@@ -253,6 +264,29 @@ def real_cumulenes(mol):
         return ' '.join(['ok', str(len(cu))] + [' '.join([str(len(p))] + [str(x) for x in p]) for p in cu])
     except Exception as e:  # noqa
         return _err(e)
+
+
+def real_stereo_tables(mol):
+    """the five dicts the cis/trans and allene blocks read, in dict order (the `stabs` op)"""
+    def o(x):
+        return '-1' if x is None else str(x)
+
+    def e(env):
+        return f'{env[0]} {env[1]} {o(env[2])} {o(env[3])}'
+    try:
+        sc = mol.stereogenic_cumulenes
+        out = ['ok', 'SC', str(len(sc))] + [' '.join([str(len(p))] + [str(x) for x in p]) + ' ' + e(env) for p, env in sc.items()]
+        al = mol.stereogenic_allenes
+        out += ['AL', str(len(al))] + [f'{c} ' + e(env) for c, env in al.items()]
+        ct = mol.stereogenic_cis_trans
+        out += ['CT', str(len(ct))] + [f'{k[0]} {k[1]} ' + e(env) for k, env in ct.items()]
+        ce = mol._stereo_cis_trans_centers
+        out += ['CE', str(len(ce))] + [f'{k} {v[0]} {v[1]}' for k, v in ce.items()]
+        te = mol._stereo_cis_trans_terminals
+        out += ['TE', str(len(te))] + [f'{k} {v[0]} {v[1]}' for k, v in te.items()]
+        return ' '.join(out)
+    except Exception as ex:  # noqa
+        return _err(ex)
 
 
 def pi_kind(mol):
@@ -389,6 +423,8 @@ def k_streams(ctx):
             if any(b.order == 2 for _, _, b in m.bonds()):
                 line = 'cumul ' + ' '.join(map(str, sview_ints(m)))
                 add('cumul', line, real_cumulenes(m), line, True, vname)
+                line = 'stabs' + line[len('cumul'):]
+                add('stabs', line, real_stereo_tables(m), line, True, vname)
         # the stored `in_ring` label that Element.__hash__ reads is the structural fact "lies on a cycle of covalent bonds"
         # (coordinate `~` bonds are not ring bonds for the library; ring perception itself is C06's subject)
         ring_atoms = set().union(*[comp for comp, _ in ring_systems({n: {m: 1 for m, b in ms.items() if b.order != 8} for n, ms in mol._bonds.items()})] or [set()])
@@ -434,7 +470,7 @@ def k_streams(ctx):
         t = [rng.choice([rng.randint(-5, 5), rng.randint(-2 ** 70, 2 ** 70), -1, 2 ** 61 - 1, -(2 ** 61 - 1)])
              for _ in range(rng.randint(0, 9))]
         add('tuple', 'tuple ' + ' '.join(map(str, t)), f'ok {hash(tuple(t))}', ('tuple', tuple(t)), True, 'hash(tuple)')
-    ctx.cov['programs'] = 7  # + _chiral_morgan with cis/trans and allene labels (+cumulenes, stereogenic_cumulenes, stereogenic_cis_trans/allenes, _stereo_cis_trans_centers/terminals, _translate_cis_trans_sign/_translate_allene_sign), MoleculeStereo.cumulenes; Morgan.atoms_order(+int_adjacency), _morgan, _chiral_morgan(+tetrahedrons, stereogenic_tetrahedrons, __differentiation), Element.__hash__, hash(tuple)
+    ctx.cov['programs'] = 8  # + the five stereo dicts (op stabs); + _chiral_morgan with cis/trans and allene labels (+cumulenes, stereogenic_cumulenes, stereogenic_cis_trans/allenes, _stereo_cis_trans_centers/terminals, _translate_cis_trans_sign/_translate_allene_sign), MoleculeStereo.cumulenes; Morgan.atoms_order(+int_adjacency), _morgan, _chiral_morgan(+tetrahedrons, stereogenic_tetrahedrons, __differentiation), Element.__hash__, hash(tuple)
     if not ctx.build_ok:
         ctx.notes.append('driver not built: K streams skipped')
         return
@@ -476,6 +512,7 @@ def k_streams(ctx):
                                      'cmorgan': 'MoleculeStereo._chiral_morgan',
                                      'cfull': 'MoleculeStereo._chiral_morgan (tetrahedral + cis/trans + allene labels)',
                                      'cumul': 'MoleculeStereo.cumulenes',
+                                     'stabs': 'stereogenic_cumulenes / stereogenic_allenes / stereogenic_cis_trans / _stereo_cis_trans_centers / _stereo_cis_trans_terminals',
                                      'tuple': 'hash(tuple)'}[op],
                   f'{len(items)} disagreement(s); smallest: {what}\n request: {line}\n implementation: {exp}\n model: {g}')
     _state['k_bad'] = bad
@@ -1852,12 +1889,12 @@ def search(ctx):
     t_end = time.time() + (60 if ctx.quick else 600)
     first, seen_first = [], set()
     for op, items in (_state.get('k_bad') or {}).items():
-        if op not in ('order', 'cmorgan', 'cfull', 'cumul'):
+        if op not in ('order', 'cmorgan', 'cfull', 'cumul', 'stabs'):
             continue
         for what, line, exp, g in items:
             xs = list(map(int, line.split()[1:]))
             try:
-                m = view_to_mol(xs) if op == 'order' else sview_to_mol(xs, stereo=op in ('cfull', 'cumul'))
+                m = view_to_mol(xs) if op == 'order' else sview_to_mol(xs, stereo=op in ('cfull', 'cumul', 'stabs'))
                 key = str(m)
             except Exception:  # noqa
                 continue
@@ -1877,7 +1914,7 @@ def search(ctx):
     ctx.notes.append(f'search: {len(first)} distinct molecules from disagreeing K cases, '
                      f'{sum(1 for t in first if t[0] > 0)} of them with implementation classes coarser than an independent refinement')
     first = [(w, None, m) for _, _, w, m in first[:150]]
-    cat = (PI_STEREO if any(op in ('cfull', 'cumul') for op in (_state.get('k_bad') or {})) else []) + ALLENES + multi_component_stereo(ctx.rng, 120) + COORDINATED + RADICALS + OLIGOMERS + RING_JUNCTION_STEREO + oligomers(ctx.rng, 150) + ISOTOPES + EXPLICIT_H_STEREO + ez_catalogue() + STEREO_PAIRS + SYMMETRIC + molgen.HANDMADE
+    cat = (PI_STEREO if any(op in ('cfull', 'cumul', 'stabs') for op in (_state.get('k_bad') or {})) else []) + ALLENES + multi_component_stereo(ctx.rng, 120) + COORDINATED + RADICALS + OLIGOMERS + RING_JUNCTION_STEREO + oligomers(ctx.rng, 150) + ISOTOPES + EXPLICIT_H_STEREO + ez_catalogue() + STEREO_PAIRS + SYMMETRIC + molgen.HANDMADE
     deco = []
     for t in SYMMETRIC + molgen.HANDMADE:
         m = molgen.parse(t)
